@@ -76,6 +76,8 @@ def check_poly_case(c):
                     or abs(np.std(y1) - 1) > 1e-5):
                 probs.append(({"clause": "scale_not_shift_invariant_or_not_unit_sd"}, dict(base, offset=K, sd=float(np.std(y1)))))
     d = c["par"]["degree"]
+    if d == 1 and c["defined"] and not np.allclose(Polynomial()(x), Polynomial()(x, 1, raw=False), atol=TOL):
+        probs.append(({"clause": "poly_defaults_differ_from_documented"}, base))
     # raw powers
     raw = Polynomial()(x, d, raw=True)
     if not np.allclose(raw, np.column_stack([x**k for k in range(1, d + 1)]), rtol=0, atol=TOL):
@@ -154,6 +156,15 @@ def check_bs_case(c):
     try:
         b = BSpline()
         tr = b(x, df=df, degree=degree, intercept=intercept, **bounds)
+        if degree == 3 or not intercept:
+            # the documented defaults (degree=3, intercept=False) left out
+            kwd = dict(bounds, df=df)
+            if degree != 3:
+                kwd["degree"] = degree
+            if intercept:
+                kwd["intercept"] = True
+            if not np.allclose(BSpline()(x, **kwd), tr, atol=TOL):
+                probs.append((dict({"clause": "bs_defaults_differ_from_documented"}, **sig), dict(base, call=repr(sorted(kwd)))))
         _cmp_matrix(tr, c["train"], "bs", probs, base, sig)
         if len(later):
             nw = b(later, df=df, degree=degree, intercept=intercept, **bounds)
